@@ -1,11 +1,28 @@
 import Pyrtma.Proofs.Registry
 import Pyrtma.Proofs.RegistryDetect
+import Pyrtma.Proofs.ResRegex
+import Pyrtma.Proofs.ImportPath
 /-!
 # C12 — id and name conflicts are always detected, never invented
 
 Theorems about `Model/Registry.lean` (the model of `Parser.parse / parse_file / parse_text / handle_*`), for **every**
 table of files, every import relation on it (repeats, diamonds, cycles, self imports, missing files), every root,
 with and without the shipped core definitions, every `MAX_MESSAGE_TYPES`.
+
+The reserved-id syntax is covered as it is parsed: `Model/ResRegex.lean` holds the regular expression of
+`handle_reserve` (pattern as data, backtracking matcher), `reserved_regex_is_rangeSearch` proves it equal to the scan
+`rangeSearch` on every string, `reserved_accepts_iff / reserved_sound / reserved_canonical / reserved_text_reserves /
+reserved_rejected` characterise the accepted language, the numbers read and what is rejected.  Not a theorem: that this
+matcher is CPython's `re` (decided on the implementation: the real `re.search` with the pattern read from the source,
+and `\s`, `[0-9]` over every code point, on every run).
+
+Import paths are inside the model too: `Model/ImportPath.lean` turns the *texts* of the `imports:` entries into files the
+way `handle_import` / `parse_file` do (pathlib parsing, `is_dir()`, the suffix test, `(cwd / text).resolve()` as the key of
+`included_files`, cwd = directory of the importing file) and lowers a path-level input to the index-level input the
+theorems below are about.  `each_path_read_once`: for pairwise distinct file paths the paths opened in one compilation
+are pairwise distinct, whatever spellings reach them — no side condition, because the real key is the resolved path;
+`spelling_*` say which spellings share a key; `imports_by_any_spelling_are_read` is the other inclusion.  Out of scope:
+symbolic links to directories / inside a path, hard links, case-insensitive file systems, `.yml` (interactive prompt).
 
 Reading guide: `flatten i` (Spec) is the import closure as the property describes it; `flawsOf` are the declarative
 conflict notions (two definitions claiming one key; an id outside its range); `parse i` is the model of the code.
@@ -294,6 +311,233 @@ theorem reserved_vs_message_detected (i : Input) (c₁ c₂ : Bool) (ids : Optio
     simpa [List.append_assoc] using this
   simp [Flaws.conflict, this]
 
+/-! ## the reserved-id syntax as `re` parses it (`Model/ResRegex.lean`)
+
+`handle_reserve` accepts an entry that is an `int` as a single id and runs
+`re.search(r"\s*(?P<start>[0-9]+)\s*(\-|to)\s*(?P<end>[0-9]+)\s*", e)` on an entry that is a `str`; everything else, a
+string without a match, `start > end` and a span of more than 100 ids are `RTMASyntaxError`s.  `reRange` is that
+`re.search` — the pattern with the backtracking semantics of CPython's matcher; `rangeSearch` is the deterministic
+scan all other theorems of this file use. -/
+
+open Pyrtma.ResRegex in
+/-- **The regular expression and the scan agree on every string** (start and end as `int()` reads them, or no match). -/
+theorem reserved_regex_is_rangeSearch (s : List Char) : reRange s = rangeSearch s := reRange_eq_rangeSearch s
+
+open Pyrtma.ResRegex in
+/-- **The accepted language, exactly**: a string entry has a match iff somewhere in it there is a run of ASCII
+digits, optional blanks (`\s`, Unicode blanks included), `-` or `to`, optional blanks, a run of ASCII digits.  What
+surrounds it is irrelevant (`search`); everything else is rejected. -/
+theorem reserved_accepts_iff (s : List Char) : (rangeSearch s).isSome = true ↔ InLang s := by
+  constructor
+  · intro h
+    cases hr : rangeSearch s with
+    | none => rw [hr] at h; cases h
+    | some r =>
+      obtain ⟨pre, d1, w1, sep, w2, d2, post, e, h1, h2, h3, h4, h5, h6, h7, _⟩ := rangeSearch_sound (a := r.1) (b := r.2) hr
+      exact ⟨pre, d1, w1, sep, w2, d2, post, e, h1, h2, h3, h4, h5, h6, h7⟩
+  · rintro ⟨pre, d1, w1, sep, w2, d2, post, rfl, h1, h2, h3, h4, h5, h6, h7⟩
+    apply rangeSearch_append_isSome
+    rw [rangeSearch_of_rangeAt (rangeAt_shape h1 h2 h3 h4 h5 h6 h7)]
+    rfl
+
+open Pyrtma.ResRegex in
+/-- **Soundness**: whatever is found is the value of a digit run followed — blanks aside — by `-` or `to` and the value
+of a *maximal* digit run (the text after it does not begin with a digit). -/
+theorem reserved_sound (s : List Char) (a b : Nat) (h : rangeSearch s = some (a, b)) :
+    ∃ pre d1 w1 sep w2 d2 post, s = pre ++ (d1 ++ (w1 ++ (sep ++ (w2 ++ (d2 ++ post))))) ∧
+      d1 ≠ [] ∧ d1.all isDigit = true ∧ w1.all isWs = true ∧ (sep = ['-'] ∨ sep = ['t', 'o']) ∧
+      w2.all isWs = true ∧ d2 ≠ [] ∧ d2.all isDigit = true ∧ NoHead isDigit post ∧
+      a = digitsVal d1 ∧ b = digitsVal d2 := rangeSearch_sound h
+
+open Pyrtma.ResRegex in
+/-- **Completeness on the intended language**: every way of writing `a-b` / `a to b` — any blanks before, between
+and after, any digit strings (leading zeros included) — yields exactly the two numbers written. -/
+theorem reserved_canonical (w0 d1 w1 sep w2 d2 w3 : List Char) (hw0 : w0.all isWs = true)
+    (h1 : d1 ≠ []) (hd1 : d1.all isDigit = true) (hw1 : w1.all isWs = true) (hsep : sep = ['-'] ∨ sep = ['t', 'o'])
+    (hw2 : w2.all isWs = true) (h2 : d2 ≠ []) (hd2 : d2.all isDigit = true) (hw3 : w3.all isWs = true) :
+    rangeSearch (w0 ++ (d1 ++ (w1 ++ (sep ++ (w2 ++ (d2 ++ w3)))))) = some (digitsVal d1, digitsVal d2) := by
+  rw [rangeSearch_skip_ws _ hw0, rangeSearch_of_rangeAt (rangeAt_shape h1 hd1 hw1 hsep hw2 h2 hd2)]
+  have : w3.takeWhile isDigit = [] := by
+    apply takeWhile_of_noHead
+    intro c t e; subst e
+    simp only [List.all_cons, Bool.and_eq_true] at hw3
+    exact ws_not_digit hw3.1
+  rw [this, List.append_nil]
+
+/-- `int()` of what Python's `str(n)` prints is `n` -/
+theorem digitsVal_repr (n : Nat) : digitsVal (toString n).toList = n := by
+  rw [Nat.toString_eq_repr, Nat.toList_repr]
+  exact Nat.ofDigitChars_ten_toDigits
+
+theorem repr_digits (n : Nat) : (toString n).toList ≠ [] ∧ (toString n).toList.all isDigit = true := by
+  rw [Nat.toString_eq_repr, Nat.toList_repr]
+  refine ⟨Nat.toDigits_ne_nil, ?_⟩
+  rw [List.all_eq_true]
+  intro c hc
+  have := Nat.isDigit_of_mem_toDigits (by decide) (by decide) hc
+  simpa [Char.isDigit, isDigit, Char.le_def] using this
+
+/-- leading zeros do not change the number -/
+theorem digitsVal_leading_zeros (k : Nat) (ds : List Char) : digitsVal (List.replicate k '0' ++ ds) = digitsVal ds := by
+  show Nat.ofDigitChars 10 _ 0 = Nat.ofDigitChars 10 _ 0
+  rw [Nat.ofDigitChars_append, Nat.ofDigitChars_replicate_zero, Nat.mul_zero]
+
+/-- **`"a-b"`, `"a to b"`, `" a  -\tb "`, … with `a ≤ b` and at most 100 ids reserve exactly `a … b`**, for the
+decimal spelling Python prints (the end-to-end statement: syntax, then `reserved_range_ids`). -/
+theorem reserved_text_reserves (w0 w1 sep w2 w3 : List Char) (a b : Nat) (hw0 : w0.all isWs = true)
+    (hw1 : w1.all isWs = true) (hsep : sep = ['-'] ∨ sep = ['t', 'o']) (hw2 : w2.all isWs = true)
+    (hw3 : w3.all isWs = true) (hab : a ≤ b) (hspan : b + 1 - a ≤ 100) (v : Nat) :
+    (Int.ofNat v ∈ reservedIds (some [.text
+      (w0 ++ ((toString a).toList ++ (w1 ++ (sep ++ (w2 ++ ((toString b).toList ++ w3))))))])) ↔ a ≤ v ∧ v ≤ b := by
+  apply reserved_range_ids _ a b _ hab hspan
+  have := reserved_canonical w0 (toString a).toList w1 sep w2 (toString b).toList w3 hw0 (repr_digits a).1 (repr_digits a).2
+    hw1 hsep hw2 (repr_digits b).1 (repr_digits b).2 hw3
+  rw [digitsVal_repr, digitsVal_repr] at this
+  exact this
+
+/-- what is rejected: no match, `start > end`, more than 100 ids — and every entry that is neither an int nor a
+string -/
+theorem reserved_rejected (s : List Char) :
+    expandEntry (.text s) = .error .resSyntax ↔
+      (rangeSearch s = none ∨ ∃ a b, rangeSearch s = some (a, b) ∧ (a > b ∨ b + 1 - a > 100)) := by
+  cases h : rangeSearch s with
+  | none => simp [expandEntry, h]
+  | some r =>
+    obtain ⟨a, b⟩ := r
+    simp only [expandEntry, h, Option.some.injEq, Prod.mk.injEq, reduceCtorEq, false_or]
+    constructor
+    · intro h1
+      refine ⟨a, b, ⟨rfl, rfl⟩, ?_⟩
+      by_cases h2 : a > b
+      · exact Or.inl h2
+      · by_cases h3 : b + 1 - a > 100
+        · exact Or.inr h3
+        · simp [h2, h3] at h1
+    · rintro ⟨a', b', ⟨rfl, rfl⟩, h2 | h2⟩
+      · simp [h2]
+      · by_cases h3 : a > b <;> simp [h2, h3]
+
+theorem reserved_other_rejected : expandEntry .other = .error .resSyntax := rfl
+
+/-! ## import paths: the spelled text, the key of `included_files`, and reading each file once
+
+`Model/ImportPath.lean`: `parse_file` keys `included_files` by `(cwd / text).resolve()` — the absolute path with `.`,
+empty components and `x/..` removed lexically and a final symbolic link expanded — and handles a file's imports with
+the cwd set to that file's directory.  `lower` turns a path-level input (files under absolute paths, import *texts*)
+into the index-level input every theorem above is about, so all of them hold for `pparse` as they stand. -/
+
+open Pyrtma.ImportPath in
+/-- the path of file number `n` -/
+def pathOf (i : PInput) (n : Nat) : APath := ((i.files[n]?).map (·.path)).getD []
+
+theorem nodup_map_of_inj_on {α β} {f : α → β} : ∀ {l : List α}, l.Nodup → (∀ a ∈ l, ∀ b ∈ l, f a = f b → a = b) →
+    (l.map f).Nodup
+  | [], _, _ => List.nodup_nil
+  | x :: l, hn, hinj => by
+    rw [List.map_cons, List.nodup_cons]
+    obtain ⟨hx, hl⟩ := List.nodup_cons.mp hn
+    refine ⟨?_, nodup_map_of_inj_on hl (fun a ha b hb => hinj a (List.mem_cons_of_mem _ ha) b (List.mem_cons_of_mem _ hb))⟩
+    intro hm
+    obtain ⟨y, hy, hxy⟩ := List.mem_map.mp hm
+    have := hinj y (List.mem_cons_of_mem _ hy) x List.mem_cons_self hxy
+    subst this; exact hx hy
+
+open Pyrtma.ImportPath in
+theorem lower_files_length (i : PInput) : (lower i).files.length = i.files.length := by simp [lower]
+
+open Pyrtma.ImportPath in
+/-- **Every file of the closure is read exactly once, whatever spellings reach it.**  For every file system with
+pairwise distinct file paths, every import relation and every way of writing each import (relative to the importing
+file, `./`, `x/../`, repeated slashes, absolute, a symbolic link to the file): the *paths* opened during a compilation
+are pairwise distinct.  No side condition on the spellings is needed, because the real key is the resolved path. -/
+theorem each_path_read_once (i : PInput) (hnd : (i.files.map (·.path)).Nodup) :
+    ((enteredOf (flatten (lower i))).map (pathOf i)).Nodup := by
+  have hE := flatten_reads_each_file_once (lower i)
+  have hv : ∀ n ∈ enteredOf (flatten (lower i)), n < i.files.length := by
+    intro n hn
+    have w := (flatten_walk (lower i)).1
+    have := w.valid n (by rw [w.ext]; simpa [flatten] using hn)
+    rwa [lower_files_length] at this
+  apply nodup_map_of_inj_on hE
+  intro a ha b hb hab
+  have la := hv a ha
+  have lb := hv b hb
+  have ga : pathOf i a = (i.files.map (·.path))[a]'(by simpa using la) := by
+    simp [pathOf, List.getElem?_eq_getElem la]
+  have gb : pathOf i b = (i.files.map (·.path))[b]'(by simpa using lb) := by
+    simp [pathOf, List.getElem?_eq_getElem lb]
+  rw [ga, gb] at hab
+  exact (List.getElem_inj hnd).mp hab
+
+open Pyrtma.ImportPath in
+/-- **Nothing reachable is skipped, however it is spelled**: every import text of every opened, readable file that
+denotes a definition file of the file system gets that file opened. -/
+theorem imports_by_any_spelling_are_read (i : PInput) (fid : Nat) (pf : PFile) (t : List Char) (n : Nat)
+    (hent : fid ∈ enteredOf (flatten (lower i))) (hf : i.files[fid]? = some pf)
+    (hd : (lowerFile i.fs pf).dupKeys = false) (he : (lowerFile i.fs pf).empty = false)
+    (ht : t ∈ pf.importTexts) (hr : resolveImp i.fs pf.path.dropLast t = .file n) :
+    n ∈ enteredOf (flatten (lower i)) := by
+  obtain ⟨_, _, hdone⟩ := flatten_import_closed (lower i)
+  have hf' : (lower i).files[fid]? = some (lowerFile i.fs pf) := by simp [lower, hf]
+  have hmem : Imp.file n ∈ (lowerFile i.fs pf).imports := by
+    simp only [lowerFile, List.mem_map]
+    exact ⟨t, ht, hr⟩
+  rcases hdone fid _ (mem_enteredOf.mp hent) hf' hd he n hmem with h | h
+  · exact h
+  · have := (List.getElem?_eq_some_iff.mp (resolveImp_file hr).1).1
+    rw [lower_files_length] at h
+    simp [PInput.fs] at this
+    omega
+
+open Pyrtma.ImportPath in
+/-- pathlib drops empty components (repeated and trailing slashes) and `.` before anything else looks at the text -/
+theorem spelling_dot_and_empty_vanish (t : List Char) : ∀ s ∈ (parsePath t).parts, s ≠ [] ∧ s ≠ ['.'] := by
+  intro s hs
+  simp only [parsePath, List.mem_filter, keepSeg, Bool.and_eq_true, bne_iff_ne, ne_eq] at hs
+  exact hs.2
+
+open Pyrtma.ImportPath in
+/-- `x/..` cancels anywhere in a path, whether or not `x` exists (`resolve()` is not strict) -/
+theorem spelling_dotdot_cancels (acc : APath) (a : List Seg) (x : Seg) (r : List Seg) (hx : x ≠ dotdot) :
+    normalize acc (a ++ x :: dotdot :: r) = normalize acc (a ++ r) := normalize_cancel_inside acc a x r hx
+
+open Pyrtma.ImportPath in
+/-- from every directory, enough `..` followed by the target's components reaches the target -/
+theorem spelling_up_down (cwd target : APath) (n : Nat) (hn : cwd.length ≤ n) (ht : ∀ s ∈ target, s ≠ dotdot) :
+    lexical cwd ⟨false, List.replicate n dotdot ++ target⟩ = target := by
+  simpa [lexical] using normalize_up_down cwd target n hn ht
+
+open Pyrtma.ImportPath in
+/-- an absolute text means the same file from every importing directory -/
+theorem spelling_absolute_ignores_cwd (fs : FS) (cwd cwd' : APath) (p : PPath) (h : p.abs = true) :
+    fs.key cwd p = fs.key cwd' p := by
+  simp [FS.key, lexical_abs cwd cwd' p h]
+
+open Pyrtma.ImportPath in
+/-- **two spellings of one key are one import** (same file number handed to the walk) -/
+theorem spelling_same_key_same_file (fs : FS) (cwd₁ cwd₂ : APath) (t₁ t₂ : List Char)
+    (hk : fs.key cwd₁ (parsePath t₁) = fs.key cwd₂ (parsePath t₂))
+    (hd₁ : fs.isDirOS cwd₁ (parsePath t₁) = false) (hd₂ : fs.isDirOS cwd₂ (parsePath t₂) = false)
+    (hs₁ : goodSuffix (parsePath t₁) = true) (hs₂ : goodSuffix (parsePath t₂) = true) :
+    resolveImp fs cwd₁ t₁ = resolveImp fs cwd₂ t₂ := same_key_same_imp fs cwd₁ cwd₂ t₁ t₂ hk hd₁ hd₂ hs₁ hs₂
+
+open Pyrtma.ImportPath in
+/-- … and two different keys are two different files: the file number is the key -/
+theorem spelling_file_number_iff_key (fs : FS) (hnd : fs.files.Nodup) (cwd₁ cwd₂ : APath) (t₁ t₂ : List Char) (n₁ n₂ : Nat)
+    (h₁ : resolveImp fs cwd₁ t₁ = .file n₁) (h₂ : resolveImp fs cwd₂ t₂ = .file n₂) :
+    n₁ = n₂ ↔ fs.key cwd₁ (parsePath t₁) = fs.key cwd₂ (parsePath t₂) :=
+  file_number_iff_key fs hnd cwd₁ cwd₂ t₁ t₂ n₁ n₂ h₁ h₂
+
+open Pyrtma.ImportPath in
+/-- the path-level compilation is the fold of the handlers over the flattened closure of the lowered input, so
+every theorem of this file (`detect_complete`, `rejected_justified`, `detect_class`, …) speaks about it -/
+theorem pparse_eq_run_flatten (i : PInput) : pparse i = run i.cfg (flatten (lower i)) {} :=
+  parse_eq_run_flatten (lower i)
+
+open Pyrtma.ImportPath in
+theorem path_level_detect_complete (i : PInput) (h : (flawsOf i.cfg (flatten (lower i))).conflict = true) :
+    ∃ e, pparse i = .error e := detect_complete (lower i) h
+
 /-! ## the oracle used on the implementation is the one the model always satisfies -/
 
 def obsOf (r : Except Err St) : Obs :=
@@ -360,5 +604,73 @@ example : rangeSearch "10 -- 12".toList = none := by decide
 example : expandEntry (.text "12-10".toList) = .error .resSyntax := by rfl
 example : expandEntry (.text "1-101".toList) = .error .resSyntax := by rfl
 example : expandEntry (.text "5-7".toList) = .ok [5, 6, 7] := by rfl
+
+/-- the regular expression itself (backtracking matcher), on the same strings and on near misses -/
+example : ResRegex.reRange "10-12".toList = some (10, 12) := by decide
+example : ResRegex.reRange " 10  to\t12 ".toList = some (10, 12) := by decide
+example : ResRegex.reRange "7 8 10-12-99".toList = some (10, 12) := by decide
+example : ResRegex.reRange "1e3-2e3".toList = some (3, 2) := by decide
+example : ResRegex.reRange "007-0012".toList = some (7, 12) := by decide
+example : ResRegex.reRange "10\u00a0-\u300012".toList = some (10, 12) := by decide     -- NBSP, IDEOGRAPHIC SPACE are `\s`
+example : ResRegex.reRange "10\u200b-12".toList = none := by decide                    -- ZERO WIDTH SPACE is not
+example : ResRegex.reRange "10 To 12".toList = none := by decide
+example : ResRegex.reRange "10 t o 12".toList = none := by decide
+example : ResRegex.reRange "١٠-12".toList = none := by decide                          -- ARABIC-INDIC digits are not `[0-9]`
+example : ResRegex.search ResRegex.rangeRe "x 007 -\t12y".toList = some [(0, "007".toList), (1, "12".toList)] := by decide
+/-- hypotheses of `reserved_canonical` / `reserved_text_reserves` are satisfiable -/
+example : rangeSearch (" ".toList ++ ("007".toList ++ ("\t".toList ++ (['t', 'o'] ++ ("  ".toList ++ ("12".toList ++ "\n".toList))))))
+    = some (7, 12) :=
+  reserved_canonical _ _ _ _ _ _ _ (by decide) (by decide) (by decide) (by decide) (Or.inr rfl) (by decide) (by decide)
+    (by decide) (by decide)
+example : (Int.ofNat 11 ∈ reservedIds (some [.text ("".toList ++ ((toString 10).toList ++ (" ".toList ++ (['-'] ++ (" ".toList ++
+    ((toString 12).toList ++ "".toList))))))])) :=
+  (reserved_text_reserves _ _ _ _ _ 10 12 (by decide) (by decide) (Or.inl rfl) (by decide) (by decide) (by decide) (by decide) 11).mpr
+    (by decide)
+example : ResRegex.InLang "ids 10 - 12 incl".toList :=
+  ⟨"ids ".toList, "10".toList, " ".toList, ['-'], " ".toList, "12".toList, " incl".toList, by decide, by decide, by decide,
+   by decide, Or.inl rfl, by decide, by decide, by decide⟩
+
+
+/-! ### import paths: a diamond with a cycle in which every import is spelled differently -/
+
+section PathExamples
+open Pyrtma.ImportPath
+
+private def seg (s : String) : Seg := s.toList
+private def pA : PFile where
+  path := [seg "w", seg "a.yaml"]
+  file := { consts := ["A"] }
+  importTexts := ["inc/b.yaml".toList, "./inc//b.yaml".toList, "nosuchdir/../inc/c.yaml".toList, "/w/inc/../inc/b.yaml".toList]
+private def pB : PFile where
+  path := [seg "w", seg "inc", seg "b.yaml"]
+  file := { structs := ["B"] }
+  importTexts := ["c.yaml".toList, "../a.yaml".toList, "../../w/inc/lnk.yaml".toList]
+private def pC : PFile where
+  path := [seg "w", seg "inc", seg "c.yaml"]
+  file := { msgs := [.msg "M" (some 7)] }
+  importTexts := ["../inc/../a.yaml".toList, "/w//inc/./b.yaml".toList]
+private def pin : PInput :=
+  { cfg := cfg0, files := [pA, pB, pC], cwd := [seg "home"], rootText := "../w/./a.yaml".toList,
+    links := [([seg "w", seg "inc", seg "lnk.yaml"], [seg "w", seg "inc", seg "c.yaml"])] }
+
+/-- nine import texts, seven spellings, three files: each read once, in depth-first order -/
+example : (lower pin).files.map (·.imports) =
+    [[.file 1, .file 1, .file 2, .file 1], [.file 2, .file 0, .file 2], [.file 0, .file 1]] := by decide
+example : (lower pin).root = 0 := by decide
+example : enteredOf (flatten (lower pin)) = [0, 1, 2] := by decide
+example : pparse pin = .ok { consts := ["A"], structs := ["B"], msgs := [("M", 7)] } := by rfl
+example : (pin.files.map (·.path)).Nodup := by decide
+/-- what is *not* a definition file: a directory, a wrong suffix, a missing file, a path through a regular file -/
+example : resolveImp pin.fs [seg "w"] "inc".toList = .dir := by decide
+example : resolveImp pin.fs [seg "w"] "".toList = .dir := by decide
+example : resolveImp pin.fs [seg "w"] "inc/b.txt".toList = .badSuffix := by decide
+example : resolveImp pin.fs [seg "w"] "inc/.yaml".toList = .badSuffix := by decide
+example : resolveImp pin.fs [seg "w"] "inc/d.yaml".toList = .missing := by decide
+example : resolveImp pin.fs [seg "w"] "a.yaml/x.yaml".toList = .missing := by decide
+example : osErrorClass pin.fs [seg "w"] "a.yaml/x.yaml".toList = "NotADirectoryError" := by decide
+example : resolveImp pin.fs [seg "w"] "a.yaml/../inc/B.YAML/../b.yaml".toList = .file 1 := by decide
+example : resolveImp pin.fs [seg "w"] "inc/b.YAML".toList = .missing := by decide          -- the suffix test is case-blind, the file system is not
+
+end PathExamples
 
 end Pyrtma.C12
